@@ -13,7 +13,9 @@ RULE = ("the C13 programs and inputs; compared: both offset maps of every step a
         "replays the substitutions, and checks every token made of contiguous carried-over characters. "
         "Non-trivial = a rule matched and the result has a token; distinct = canonical JSON.")
 EXHAUSTIVE = {"quick": True, "thorough": True}
-EXPLANATION = ("Map lengths and gap provenance are theorems for every program step, match list and template.")
+EXPLANATION = ("Map lengths, gap provenance and the provenance of characters carried through in-order capture "
+               "groups (optional, empty and nested groups included) are theorems for every program step, match "
+               "list and template.")
 ASSUMPTIONS = list(__import__("harness.props.c13", fromlist=["ASSUMPTIONS"]).ASSUMPTIONS) + [
     "YY serialisation round trip of the token lattice is checked by the oracle on every case, not modelled",
 ]
@@ -24,8 +26,8 @@ LEVEL_TEXT = ("Proof (Coq, no axioms): both offset maps of every step of every p
               "inserted/deleted before it (the net length change of every match is accounted exactly, for "
               "every template); tokenization yields the maximal separator-free pieces (model of _tokenize). "
               "Maps, spans and tokens are tied to delphin/repp.py by kernel-checked correspondence.")
-LEVEL_NOTE = ("Partial: provenance of characters carried through tracked capture groups is covered by "
-              "correspondence and the tagging oracle only; YY round trip is oracle-only. F9 (matched text left "
+LEVEL_NOTE = ("Partial: the composition of provenance across several rules (mergemap) and token spans are covered by "
+              "correspondence and the tagging oracle; YY round trip is oracle-only. F9 (matched text left "
               "out by in-order group references was not accounted) was repaired by a fix: commit.")
 TECHNIQUE = "Coq proof (length and provenance invariants of the rule loop) + kernel-checked correspondence + tagging oracle"
 DESIGN_REF = "DESIGN.md section 6, C14"
@@ -101,13 +103,13 @@ def oracle(c):
     s = c["s"]
     if rc.has_mask(prog) and any(True for _ in rc.rules_of(prog)):
         return None
-    for st in r.trace(s, verbose=True):
+    for st in r.trace(s, verbose=True, **rc.call_kw(c)):
         out = st.output if hasattr(st, "output") else st.string
         if len(st.startmap) != len(out) + 2 or len(st.endmap) != len(out) + 2:
             return "offset maps of length %d/%d for an output of length %d" % (
                 len(st.startmap), len(st.endmap), len(out))
-    lat = r.tokenize(s, pattern=c["tokpat"])
-    res = r.apply(s)
+    lat = r.tokenize(s, pattern=c["tokpat"], **rc.call_kw(c))
+    res = r.apply(s, **rc.call_kw(c))
     pieces = []
     pos = 0
     for m in re.finditer(c["tokpat"], res.string):
